@@ -717,6 +717,21 @@ func (e *SpecEnv) evalCall(x *ECall) SV {
 				}
 				fc.eng.declareUF(fc, id.Name, []string{"(Array Int Int)", "Int", "Int", "(Array Int Int)", "Int", "Int"}, "Bool")
 				return SV{t: app(id.Name, parts...), typ: boolT}
+			case "bigbytes":
+				// bigbytes(s): big-endian value of a byte string (uninterpreted function of block, offset, length)
+				v := e.eval(x.Args[0])
+				var parts []string
+				switch u := types.Unalias(v.typ).Underlying().(type) {
+				case *types.Slice:
+					k, s := fc.bKey(u.Elem())
+					parts = []string{app("select", fc.comp(e.cur, k, s), sarr(v.t)), soff(v.t), slen(v.t)}
+				case *types.Array:
+					parts = []string{v.t, "0", num(u.Len())}
+				default:
+					e.fail("bigbytes of %s", v.typ)
+				}
+				fc.eng.declareUF(fc, "bigbytes", []string{"(Array Int Int)", "Int", "Int"}, "Int")
+				return SV{t: app("bigbytes", parts...), typ: mathInt}
 			case "bytes":
 				// bytes(s): the (Array Int Int) block behind a byte slice, for use with seq builtins
 				v := e.eval(x.Args[0])
